@@ -247,17 +247,24 @@ def _matmul_by_evaluation(ctx, ck, base, comp, identity, homothety) -> bool:
     tA = Obj(tr_cls, {'operator': A, '__out__': S})
     I = Obj(identity, {'_in_structure': S, '__out__': S})
     H0, H1 = (Obj(homothety, {'value': Opaque(f'k{i}'), '_in_structure': S, '__out__': S}) for i in (0, 1))
-    names = {id(A): 'A', id(B): 'B', id(iA): 'A.I', id(iB): 'B.I', id(tA): 'A.T', id(I): 'I', id(H0): 'k0', id(H1): 'k1'}
-    letters = {id(A): ('A', 1), id(B): ('B', 1), id(iA): ('A', -1), id(iB): ('B', -1), id(tA): ('At', 1)}
+    add_cls = table.find(f'{CORE}.AdditionOperator')
+    sAB = Obj(add_cls, {'operands': [A, B], '__out__': S}) if add_cls is not None else None
+    names = {id(A): 'A', id(B): 'B', id(iA): 'A.I', id(iB): 'B.I', id(tA): 'A.T', id(I): 'I', id(H0): 'k0', id(H1): 'k1', id(sAB): '(A + B)'}
+    # (a sum is one factor of a product: its terms must not be spliced into the chain)
+    letters = {id(A): ('A', 1), id(B): ('B', 1), id(iA): ('A', -1), id(iB): ('B', -1), id(tA): ('At', 1), id(sAB): ('(A+B)', 1)}
 
     def compose(*ops):
         c = Obj(comp, {'operands': list(ops), '__out__': S})
         names[id(c)] = '(' + ' @ '.join(names[id(o)] for o in ops) + ')'
         return c
 
-    family = [A, B, iA, iB, tA, I, H0, H1]
-    family += [compose(x, y) for x, y in itertools.product((A, B, iA, iB), repeat=2) if not (letters[id(x)][0] == letters[id(y)][0] and letters[id(x)][1] != letters[id(y)][1])]
-    family += [compose(H0, A), compose(A, H0)]
+    def make_family():
+        fam = [A, B, iA, iB, tA, I, H0, H1] + ([sAB] if sAB is not None else [])
+        fam += [compose(x, y) for x, y in itertools.product((A, B, iA, iB), repeat=2) if not (letters[id(x)][0] == letters[id(y)][0] and letters[id(x)][1] != letters[id(y)][1])]
+        fam += [compose(H0, A), compose(A, H0)]
+        return fam
+
+    family = make_family()
 
     def scalars_of(v):
         if isinstance(v, Sym) and v.op == '*':
@@ -315,19 +322,32 @@ def _matmul_by_evaluation(ctx, ck, base, comp, identity, homothety) -> bool:
         it.summaries[id(out_fn)] = lambda args, kwargs: args[0].attrs.get('__out__', UNK)
     problems: list[str] = []
     n = 0
-    for L, R in itertools.product(family, repeat=2):
+    mutated = False
+    for iL, iR in itertools.product(range(len(family)), repeat=2):
+        if mutated:
+            family = make_family()  # an operand was changed by the previous product: start again from fresh operands
+            mutated = False
+        L, R = family[iL], family[iR]
         text = f'{names[id(L)]} @ {names[id(R)]}'
         it.steps = 0
         del it.degraded[:]
         n += 1
+        before = (word(L), word(R))
+        raised = None
         try:
             res = it._object_binop(ast.MatMult, L, R)
         except Raised as exc:
-            problems.append(f'{text} raises {exc.name}')
-            continue
+            raised = exc.name
         except Undecided as exc:
             ck.note(f'S2: {text} could not be evaluated: {exc}' + (f' [{it.degraded[0]}]' if it.degraded else ''))
             return False
+        if (word(L), word(R)) != before:
+            mutated = True
+            problems.append(f'evaluating {text} changes an operand itself (its list of factors is modified in place): operators are values, every later use of that operand denotes another product')
+            continue
+        if raised:
+            problems.append(f'{text} raises {raised}')
+            continue
         if it.degraded or res is UNK:
             ck.note(f'S2: {text} could not be evaluated: {(it.degraded or ["unknown result"])[0]}')
             return False
